@@ -28,14 +28,26 @@ LawsHoldOnSpec ==
     /\ Flavour = "bzr" => \A p \in ExpectedAdded(c) : Par(p) = "" \/ Par(p) \in c.pre \cup ExpectedAdded(c)
     /\ ~c.rec => ExpectedAdded(c) = NamedAdded(c)
     /\ \A p \in ExpectedAdded(c) \ NamedAdded(c) : ~Ctl(p) /\ p \notin Helpers(c) /\ ~Ignored(c, p)
-\* anti-vacuity
-WitnessNamedIgnored == ~(\E a \in Named(c) : Ignored(c, a) /\ a \in ExpectedAdded(c))
-WitnessNestedSkipped == ~(c.rec /\ "." \in c.args /\ "n/@" \in c.lay /\ "n" \notin ExpectedAdded(c) /\ "d" \in ExpectedAdded(c))
-WitnessHelperSkipped == ~(c.rec /\ "f.THIS" \in c.lay /\ "f.THIS" \notin ExpectedAdded(c) /\ "f.OTHER" \in c.lay /\ c.conf # {})
-WitnessVersionedOverridesIgnore == ~(Flavour = "bzr" /\ "d" \in c.pre /\ "d" \in c.ign /\ "d/g.o" \in ExpectedAdded(c) /\ "d" \notin c.args)
+\* anti-vacuity: every exported case carries the names of the witness predicates it satisfies; the harness requires each
+\* name to occur (TLC evaluates them, one run)
+WitNamedIgnored(x) == \E a \in Named(x) : Ignored(x, a) /\ a \in ExpectedAdded(x)
+WitNestedSkipped(x) == /\ x.rec /\ "." \in x.args /\ "n/@" \in x.lay /\ "n" \notin ExpectedAdded(x)
+                       /\ (IF Flavour = "bzr" THEN "d" ELSE "d/f") \in ExpectedAdded(x)
+WitHelperSkipped(x) == x.rec /\ "." \in x.args /\ "f.THIS" \in x.lay /\ "f.THIS" \notin ExpectedAdded(x) /\ x.conf # {}
+WitHelperAddedWithoutConflict(x) == x.rec /\ "f.THIS" \in ExpectedAdded(x) /\ x.conf = {}
+WitVersionedOverridesIgnore(x) == /\ Flavour = "bzr" /\ "d" \in x.pre /\ "d" \in x.ign /\ "d/g.o" \in ExpectedAdded(x)
+                                  /\ "d" \notin x.args
+WitIgnoredDirSkipped(x) == x.rec /\ "." \in x.args /\ "d" \in x.ign /\ "d/g.o" \in x.lay /\ "d/g.o" \notin ExpectedAdded(x)
+                           /\ "d" \notin x.pre /\ "d/@" \notin x.lay /\ ~Ignored(x, "d/g.o")
+Wits(x) == {w \in {"NamedIgnored", "NestedSkipped", "HelperSkipped", "HelperAddedWithoutConflict",
+                   "VersionedOverridesIgnore", "IgnoredDirSkipped"} :
+              CASE w = "NamedIgnored" -> WitNamedIgnored(x) [] w = "NestedSkipped" -> WitNestedSkipped(x)
+                [] w = "HelperSkipped" -> WitHelperSkipped(x) [] w = "HelperAddedWithoutConflict" -> WitHelperAddedWithoutConflict(x)
+                [] w = "VersionedOverridesIgnore" -> WitVersionedOverridesIgnore(x)
+                [] w = "IgnoredDirSkipped" -> WitIgnoredDirSkipped(x)}
 Out(x) == [c |-> [lay |-> SetToSeq(x.lay), ign |-> SetToSeq(x.ign), conf |-> SetToSeq(x.conf), pre |-> SetToSeq(x.pre),
                   args |-> SetToSeq(x.args), rec |-> x.rec],
-           exp |-> SetToSeq(ExpectedAdded(x))]
+           exp |-> SetToSeq(ExpectedAdded(x)), wit |-> SetToSeq(Wits(x))]
 Export == JsonSerialize(IOEnv.VF_OUT, SetToSeq({Out(x) : x \in Cases}))
 ASSUME IF "VF_OUT" \in DOMAIN IOEnv THEN Export ELSE TRUE
 =============================================================================
